@@ -73,8 +73,8 @@ impl DualConnector {
         left_feat_ids_tmp: &[Vec<U31>],
         matrix_indices: &[usize],
         scorer: &Scorer,
-    ) -> (MatrixConnector, Vec<u16>, Vec<u16>) {
-        let generate_feature_map = |feat_ids_tmp: &[Vec<U31>]| {
+    ) -> Result<(MatrixConnector, Vec<u16>, Vec<u16>)> {
+        let generate_feature_map = |feat_ids_tmp: &[Vec<U31>]| -> Result<_> {
             let mut conn_id_map = vec![0];
             let mut feats_map = HashMap::new();
             feats_map.insert(vec![U31::default(); matrix_indices.len()], 0);
@@ -85,12 +85,13 @@ impl DualConnector {
                 }
                 let new_conn_id = feats_map.len();
                 let conn_id = *feats_map.entry(feat_ids).or_insert(new_conn_id);
-                conn_id_map.push(u16::try_from(conn_id).unwrap());
+                // More than u16::MAX distinct rows cannot be indexed by the matrix part.
+                conn_id_map.push(u16::try_from(conn_id)?);
             }
-            (conn_id_map, feats_map)
+            Ok((conn_id_map, feats_map))
         };
-        let (right_conn_id_map, right_feats_map) = generate_feature_map(right_feat_ids_tmp);
-        let (left_conn_id_map, left_feats_map) = generate_feature_map(left_feat_ids_tmp);
+        let (right_conn_id_map, right_feats_map) = generate_feature_map(right_feat_ids_tmp)?;
+        let (left_conn_id_map, left_feats_map) = generate_feature_map(left_feat_ids_tmp)?;
         let mut matrix = vec![0; right_feats_map.len() * left_feats_map.len()];
         for (right_feats, rid) in &right_feats_map {
             for (left_feats, lid) in &left_feats_map {
@@ -104,7 +105,7 @@ impl DualConnector {
         }
         let matrix_connector =
             MatrixConnector::new(matrix, right_feats_map.len(), left_feats_map.len());
-        (matrix_connector, right_conn_id_map, left_conn_id_map)
+        Ok((matrix_connector, right_conn_id_map, left_conn_id_map))
     }
 
     fn create_raw_connector(
@@ -177,12 +178,13 @@ impl DualConnector {
         // (resulting in INVALID_FEATURE_ID) so that every id still occupies one full vector.
         raw_indices.resize(SIMD_SIZE, usize::MAX);
 
-        let (matrix_connector, right_conn_id_map, left_conn_id_map) = Self::create_matrix_connector(
-            &right_feat_ids_tmp,
-            &left_feat_ids_tmp,
-            &matrix_indices,
-            &scorer,
-        );
+        let (matrix_connector, right_conn_id_map, left_conn_id_map) =
+            Self::create_matrix_connector(
+                &right_feat_ids_tmp,
+                &left_feat_ids_tmp,
+                &matrix_indices,
+                &scorer,
+            )?;
         let (right_feat_ids, left_feat_ids) = Self::create_raw_connector(
             &right_feat_ids_tmp,
             &left_feat_ids_tmp,
